@@ -48,7 +48,10 @@ def main(argv):
     res["lines"] = sorted([b, q, l] for (b, q, l) in cov.hit)
     tmp = out + ".tmp"
     with open(tmp, "w") as f:
-        json.dump(res, f, default=repr)
+        try:
+            f.write(json.dumps(res, default=repr))
+        except ValueError:
+            f.write(json.dumps(util._tame(res), default=util._default))
     os.replace(tmp, out)
     faulthandler.cancel_dump_traceback_later()
     return 0
